@@ -29,7 +29,7 @@ from ..sigref import ref_valid, sign_with
 PID = "C01"
 LEVEL = "exploration"
 RULE = ("for each of 8 scripted overlay runs every datagram the observed node received (valid by the reference verdict) is "
-        "mutated: one bit flip per byte position (thorough: all 8 bits), every truncation length, 3 extensions, 6 "
+        "mutated: three bit flips per byte position (thorough: all 8 bits), every truncation length, 3 extensions, 6 "
         "key/signature substitutions, splices with up to 6 other datagrams, prefix swap, swap to every registered message "
         "id, key-length edits, sibling-community replay - exhaustive over positions for the captured corpus. Non-trivial = "
         "the mutant still carries the receiver's prefix and an authenticated message id and its authentication header "
@@ -69,7 +69,7 @@ def mutations(d: bytes, corpus: list[bytes], ids: list[int], thorough: bool, oth
     """
     n = len(d)
     for i in range(n):
-        bits = range(8) if thorough else (i % 8,)
+        bits = range(8) if thorough else (i % 8, (i + 3) % 8, (i + 5) % 8)
         for b in bits:
             x = bytearray(d)
             x[i] ^= 1 << b
